@@ -27,6 +27,20 @@ type closer struct {
 
 func (c closer) Close() error { *c.closed++; return nil }
 
+type failingCloser struct {
+	id     string
+	fails  bool
+	counts map[string]int
+}
+
+func (c failingCloser) Close() error {
+	c.counts[c.id]++
+	if c.fails {
+		return errors.New("close " + c.id + " failed")
+	}
+	return nil
+}
+
 func pScenarios() []pScenario {
 	var out []pScenario
 	add := func(name string, run func(r *vrt.Run)) { out = append(out, pScenario{name: name, run: run}) }
@@ -424,6 +438,31 @@ func pScenarios() []pScenario {
 			r.Failf("Close closed %d of 2 resources", closed)
 		}
 	})
+	// Close closes all of them - also when closing some of them fails (every subset of three
+	// resources failing, whatever the order the manager visits them in)
+	for mask := 1; mask < 8; mask++ {
+		mask := mask
+		add(fmt.Sprintf("resourcemanager/close-with-failing-closers/mask=%03b", mask), func(r *vrt.Run) {
+			m := NewResourceManager()
+			counts := map[string]int{}
+			for i, k := range []string{"a", "b", "c"} {
+				k, fails := k, mask&(1<<i) != 0
+				if _, err := m.Get(k, func() (io.Closer, error) { return failingCloser{k, fails, counts}, nil }); err != nil {
+					r.Failf("Get: %v", err)
+				}
+			}
+			err := m.Close()
+			r.Outcome("err=%v closed=%v", err != nil, counts)
+			if err == nil {
+				r.Failf("Close returned nil although closing failed for some resources (mask %03b)", mask)
+			}
+			for _, k := range []string{"a", "b", "c"} {
+				if counts[k] != 1 {
+					r.Failf("resource %s was closed %d times by Close (failing closers: mask %03b over a,b,c)", k, counts[k], mask)
+				}
+			}
+		})
+	}
 	add("resourcemanager/create-error-then-retry", func(r *vrt.Run) {
 		m := NewResourceManager()
 		closed := 0
